@@ -38,6 +38,12 @@ func init() {
 					js = append(js, &Job{Harness: "C08Dispatch", Params: map[string]int{"set": s, "mode": 1, "lp": lp, "lq": 0, "raw": 0}})
 				}
 			}
+			// request paths with empty segments (doubled final slash included): never canonical, never redirected
+			for _, s := range []int{7, 18} {
+				for lp := 3; lp <= 5; lp++ {
+					js = append(js, &Job{Harness: "C08Dispatch", Params: map[string]int{"set": s, "mode": 1, "lp": lp, "lq": 0, "raw": 0, "empty": 1}})
+				}
+			}
 			for _, total := range totals {
 				for place := 0; place < 3; place++ {
 					for filler := 0; filler < 3; filler++ {
@@ -52,9 +58,9 @@ func init() {
 			if tier == "thorough" {
 				hi = 10
 			}
-			return fmt.Sprintf("every input string of 0..%d bytes over the full byte alphabet (256^n each), by solver; long inputs of 120..135 bytes (three concrete fillers) with a fully symbolic window of 3 (quick) / 5 (thorough) bytes at the start, middle or end, crossing the 128-byte stack buffer; redirect guard: two all-redirect routers x every path of 2..4 (quick) / 2..5 (thorough) bytes, and a router of accepted non-canonical static patterns (/n/./b/, /m/../d, /k/./e/) x every path of 2..7 bytes, x GET/POST/CONNECT (a redirect is issued only when the path equals the reference canonical form)", hi)
+			return fmt.Sprintf("every input string of 0..%d bytes over the full byte alphabet (256^n each), by solver; long inputs of 120..135 bytes (three concrete fillers) with a fully symbolic window of 3 (quick) / 5 (thorough) bytes at the start, middle or end, crossing the 128-byte stack buffer; redirect guard: two all-redirect routers x every path of 2..4 (quick) / 2..5 (thorough) bytes, and a router of accepted non-canonical static patterns (/n/./b/, /m/../d, /k/./e/) x every path of 2..7 bytes, and on the first two routers every path of 3..5 bytes that has an empty segment, x GET/POST/CONNECT (a redirect is issued only when the path equals the reference canonical form)", hi)
 		},
-		RequiredCovers: []string{"trailing-slash-in", "input longer than the stack buffer", "tsr redirected", "tsr neither ignored nor redirected: unmatched"},
+		RequiredCovers: []string{"request path with an empty segment", "trailing-slash-in", "input longer than the stack buffer", "tsr redirected", "tsr neither ignored nor redirected: unmatched"},
 	}
 }
 
@@ -117,7 +123,7 @@ func init() {
 	}
 }
 
-const nHandSets = 28
+const nHandSets = 30
 
 func lookupJobs(h string, nsets, maxLh, maxLp int) []*Job {
 	var js []*Job
@@ -220,12 +226,16 @@ func init() {
 	props["C16"] = &PropSpec{
 		ID: "C16",
 		Jobs: func(tier string) []*Job {
-			if tier == "thorough" {
-				return lookupJobs("C16Alloc", nHandSets+187, 4, 8)
-			}
 			js := lookupJobs("C16Alloc", nHandSets+47, 3, 6)
+			if tier == "thorough" {
+				js = lookupJobs("C16Alloc", nHandSets+187, 4, 8)
+			}
 			for _, s := range []int{1, 7, 13, 18} {
 				js = append(js, &Job{Harness: "C16Alloc", Params: map[string]int{"set": s, "lh": 0, "lp": 6, "raw": 1}})
+			}
+			// a writer offering FlushError / Flush / ReadFrom like the real server's
+			for _, s := range []int{0, 7, 10, 13} {
+				js = append(js, &Job{Harness: "C16Alloc", Params: map[string]int{"set": s, "lh": 0, "lp": 4, "rich": 1}})
 			}
 			// the deep-alternatives set needs its 8-byte request to reach the bottom of the tree
 			js = append(js, &Job{Harness: "C16Alloc", Params: map[string]int{"set": 25, "lh": 0, "lp": 7}}, &Job{Harness: "C16Alloc", Params: map[string]int{"set": 25, "lh": 0, "lp": 8}})
@@ -233,9 +243,9 @@ func init() {
 		},
 		Bounds: func(tier string) string {
 			if tier == "thorough" {
-				return fmt.Sprint(nHandSets+187) + " corpus route sets (every route ignoring trailing slashes) x every Host of 0..4 bytes x every path of 1..8 bytes; warm-up = the same request served once"
+				return fmt.Sprint(nHandSets+187) + " corpus route sets (every route ignoring trailing slashes) x every Host of 0..4 bytes x every path of 1..8 bytes; plus percent-encoded requests (4 sets, 6 bytes) and 4 sets served through a writer offering FlushError/Flush/ReadFrom (paths of 4 bytes); each round = interleaved concrete requests of other shapes, then the request; warm-up = one full round"
 			}
-			return fmt.Sprint(nHandSets+47) + " corpus route sets (every route ignoring trailing slashes) x every Host of 0..3 bytes x every path of 1..6 bytes; warm-up = the same request served once"
+			return fmt.Sprint(nHandSets+47) + " corpus route sets (every route ignoring trailing slashes) x every Host of 0..3 bytes x every path of 1..6 bytes; plus percent-encoded requests (4 sets, 6 bytes), the deep-alternatives set with paths of 7..8 bytes, and 4 sets served through a writer offering FlushError/Flush/ReadFrom (paths of 4 bytes); each round = interleaved concrete requests of other shapes, then the request; warm-up = one full round"
 		},
 		RequiredCovers: []string{"matching request served", "percent-encoded matching request"},
 		Assumptions: []string{
@@ -265,9 +275,9 @@ func init() {
 		},
 		Bounds: func(tier string) string {
 			if tier == "thorough" {
-				return fmt.Sprint(nHandSets+187) + " corpus route sets (hostname and path-only) x every Host header of 0..7 bytes (ports, trailing dot, extra labels/characters, brackets) x every path of 1..4 bytes"
+				return fmt.Sprint(nHandSets+187) + " corpus route sets (hostname and path-only) x every Host header of 0..7 bytes (ports, trailing dot, extra labels/characters, brackets) x every path of 1..4 bytes, each after three rounds of look-ups of every hostname route's own substituted request on the same pooled contexts; Lookup, Reverse, Txn.Lookup and Txn.Reverse"
 			}
-			return fmt.Sprint(nHandSets+47) + " corpus route sets (hostname and path-only) x every Host header of 0..5 bytes (ports, trailing dot, extra labels/characters, brackets) x every path of 1..3 bytes; and the same routers after every hostname was extended by a label, registered and deleted again (Host 1..3, path 1..2)"
+			return fmt.Sprint(nHandSets+47) + " corpus route sets (hostname and path-only) x every Host header of 0..5 bytes (ports, trailing dot, extra labels/characters, brackets) x every path of 1..3 bytes, each after three rounds of look-ups of every hostname route's own substituted request on the same pooled contexts; Lookup, Reverse, Txn.Lookup and Txn.Reverse; and the same routers after every hostname was extended by a label, registered and deleted again (Host 1..3, path 1..2)"
 		},
 		RequiredCovers: []string{"matched via hostname", "host ignored (no hostname routes)", "fallback to path-only", "host with port matched", "host with trailing dot matched"},
 	}
@@ -343,7 +353,7 @@ func init() {
 			if tier == "thorough" {
 				return "18 start sets (empty, hand and generated corpus sets incl. hostnames and the 60-sibling fan-out) x histories of k<=3 writes (Handle, HandleRoute, Update, UpdateRoute, Delete, Truncate(all), Truncate(method)) issued directly or in a committed/aborted transaction, methods {GET,FOO,POST,\"\"}, patterns from an 18-entry pool (and two 4-entry pools: hostnames that are label-wise prefixes of each other, from the empty router; a route on an existing branching node plus routes below it, from the siblings-3 set); plus a first write with a symbolic pattern of 1..5 arbitrary bytes; every reader checked after every step"
 			}
-			return "7 start sets x histories of k<=2 writes (7 kinds) direct / committed txn / aborted txn, with and without an iterator on the open transaction between the steps, methods {GET,FOO}, 6..8-entry pattern pool (12 for k=1), and two 4-entry pools (hostnames that are label-wise prefixes of each other, from the empty router; a route on an existing branching node plus routes below it, from the siblings-3 set); plus a first write with a symbolic pattern of 1..4 arbitrary bytes (k=1; 1..3 on four of the sets) and 2 bytes (k=2); every reader (Has, Route, Len, Reverse, Iter.All/Methods/Prefix per method and over all methods/Routes/Reverse) checked after every step"
+			return "7 start sets x histories of k<=2 writes (7 kinds) direct / committed txn / aborted txn, with and without an iterator on the open transaction between the steps, methods {GET,FOO}, 6..8-entry pattern pool (12 for k=1), and two 4-entry pools (hostnames that are label-wise prefixes of each other, from the empty router; a route on an existing branching node plus routes below it, from the siblings-3 set); plus a first write with a symbolic pattern of 1..4 arbitrary bytes (k=1; 1..3 on four of the sets) and 2 bytes (k=2); every reader (Has, Route, Len, Reverse, Iter.All/Methods/Prefix per method and over all methods/Routes/Reverse) checked after every step, on the router, on the open transaction and on a snapshot of it"
 		},
 		RequiredCovers: []string{"handle ok", "handle: ErrRouteExist", "handle: ErrRouteConflict", "handle: ErrInvalidRoute", "update ok", "update: ErrRouteNotFound", "delete ok", "delete: ErrRouteNotFound", "truncate all", "truncate method"},
 		Assumptions:    []string{"grammar don't-care regions are skipped (see C10)", "regexp.MatchString on the (concrete) method is executed natively"},
@@ -356,7 +366,7 @@ func init() {
 		Jobs: func(tier string) []*Job {
 			nsets, maxLh, maxLp := nHandSets+23, 2, 5
 			if tier == "thorough" {
-				nsets, maxLh, maxLp = nHandSets+63, 3, 6
+				nsets, maxLh, maxLp = nHandSets+33, 3, 6
 			}
 			var js []*Job
 			for s := 0; s < nsets; s++ {
@@ -375,7 +385,7 @@ func init() {
 		},
 		Bounds: func(tier string) string {
 			if tier == "thorough" {
-				return fmt.Sprint(nHandSets+63-1) + " corpus route sets (routes alternately GET/POST) x 11 history shapes (an aborted caching transaction registering every unregistered prefix and routes right below it, every unregistered route prefix inserted and deleted again, reverse, interleaved, extras inserted+deleted after / before, update in place, delete+reinsert each, truncate+refill in one txn, aborted txn full of writes, delete all + reinsert reversed) x request method in {GET,POST,DELETE,OPTIONS} x every Host of 0..3 bytes x every path of 1..6 bytes; 405 and auto-OPTIONS enabled"
+				return fmt.Sprint(nHandSets+33-1) + " corpus route sets (routes alternately GET/POST) x 11 history shapes (an aborted caching transaction registering every unregistered prefix and routes right below it, every unregistered route prefix inserted and deleted again, reverse, interleaved, extras inserted+deleted after / before, update in place, delete+reinsert each, truncate+refill in one txn, aborted txn full of writes, delete all + reinsert reversed) x request method in {GET,POST,DELETE,OPTIONS} x every Host of 0..3 bytes x every path of 1..6 bytes; 405 and auto-OPTIONS enabled"
 			}
 			return fmt.Sprint(nHandSets+23-1) + " corpus route sets (routes alternately GET/POST) x 11 history shapes x request method in {GET,POST,DELETE,OPTIONS} x every Host of 0..2 bytes x every path of 1..5 bytes; 405 and auto-OPTIONS enabled"
 		},
@@ -409,6 +419,10 @@ func init() {
 								// percent-encoded requests (a %XX escape in a parameter needs 6 bytes)
 								js = append(js, &Job{Harness: "C11Serve", Params: map[string]int{"set": s, "opts": o, "lh": 0, "lp": 6, "redir": 0, "raw": 1}})
 							}
+							if (s == 7 || s == 9 || s == 18) && lh == 0 && lp >= 2 && lp <= 4 && (o == 1 || o == 3) {
+								// the GET routes registered under CONNECT instead; CONNECT among the request methods
+								js = append(js, &Job{Harness: "C11Serve", Params: map[string]int{"set": s, "opts": o, "lh": 0, "lp": lp, "redir": 0, "connect": 1}})
+							}
 							if (s == 7 || s == 9 || s == 18) && lh == 0 && lp >= 2 && lp <= 3 && (o == 0 || o == 3) {
 								js = append(js, &Job{Harness: "C11Serve", Params: map[string]int{"set": s, "opts": o, "lh": lh, "lp": lp, "redir": 1}})
 							}
@@ -420,11 +434,11 @@ func init() {
 		},
 		Bounds: func(tier string) string {
 			if tier == "thorough" {
-				return fmt.Sprint(nHandSets+103) + " corpus route sets (routes spread over GET/POST/FOO/OPTIONS; per route: every third ignores trailing slashes; on three sets with paths of 2..3 bytes every third route redirects instead and a redirect-scope middleware observes the redirect handler's context) x the 4 combinations of method-not-allowed and auto-OPTIONS x request method in {GET,POST,FOO,OPTIONS,DELETE} x every Host of 0..3 bytes x every path of 1..7 bytes and the target '*'"
+				return fmt.Sprint(nHandSets+103) + " corpus route sets (routes spread over GET/POST/FOO/OPTIONS; per route: every third ignores trailing slashes; on three sets with paths of 2..3 bytes every third route redirects instead and a redirect-scope middleware observes the redirect handler's context) x the 4 combinations of method-not-allowed and auto-OPTIONS x request method in {GET,POST,FOO,OPTIONS,DELETE,CONNECT} x every Host of 0..3 bytes x every path of 1..7 bytes and the target '*'; on three sets also with the GET routes registered under CONNECT (a CONNECT route behind an ignored trailing slash may or may not be listed: the repository's tests list it, a CONNECT request never takes that action); percent-encoded requests on two sets"
 			}
-			return fmt.Sprint(nHandSets+23-1) + " corpus route sets (routes spread over GET/POST/FOO/OPTIONS; per route: every third ignores trailing slashes; on three sets with paths of 2..3 bytes every third route redirects instead and a redirect-scope middleware observes the redirect handler's context) x the 4 combinations of method-not-allowed and auto-OPTIONS x request method in {GET,POST,FOO,OPTIONS,DELETE} x every Host of 0..2 bytes x every path of 1..5 bytes and the target '*'"
+			return fmt.Sprint(nHandSets+23-1) + " corpus route sets (routes spread over GET/POST/FOO/OPTIONS; per route: every third ignores trailing slashes; on three sets with paths of 2..3 bytes every third route redirects instead and a redirect-scope middleware observes the redirect handler's context) x the 4 combinations of method-not-allowed and auto-OPTIONS x request method in {GET,POST,FOO,OPTIONS,DELETE,CONNECT} x every Host of 0..2 bytes x every path of 1..5 bytes and the target '*'; on three sets also with the GET routes registered under CONNECT (a CONNECT route behind an ignored trailing slash may or may not be listed: the repository's tests list it, a CONNECT request never takes that action); percent-encoded requests on two sets"
 		},
-		RequiredCovers: []string{"404", "405", "OPTIONS", "OPTIONS *", "served by a route", "primed with an ignored trailing-slash match", "redirect handler context observed", "percent-encoded request"},
+		RequiredCovers: []string{"404", "405", "OPTIONS", "OPTIONS *", "served by a route", "primed with an ignored trailing-slash match", "redirect handler context observed", "percent-encoded request", "CONNECT route behind an ignored trailing slash (either)"},
 	}
 }
 
@@ -458,6 +472,10 @@ func init() {
 						js = append(js, &Job{Harness: "C03Snapshot", Params: map[string]int{"set": s, "snap": snap, "k": 2, "pool": 4, "lp": 2}})
 					}
 				}
+			}
+			// writes beneath an infix catch-all node that has children (pool window 28..31, infix-children set)
+			for snap := 0; snap < 5; snap++ {
+				js = append(js, &Job{Harness: "C03Snapshot", Params: map[string]int{"set": 29, "snap": snap, "k": 1, "pool": 4, "poolfrom": 28, "lp": 2}})
 			}
 			// the state a request is being served from: one published state per request, under every schedule
 			// (a route moved between methods in one transaction || a request whose answer depends on both
@@ -512,6 +530,12 @@ func init() {
 					}
 				}
 			}
+			// a snapshot of the write transaction taken after the writes, written to and settled (Commit / Abort)
+			for _, s := range []int{-1, 0} {
+				js = append(js, &Job{Harness: "C04Txn", Params: map[string]int{"set": s, "k": 1, "pool": 6, "iter": 0, "snap": 1}})
+			}
+			// writes beneath an infix catch-all node that has children (pool window 28..31, infix-children set)
+			js = append(js, &Job{Harness: "C04Txn", Params: map[string]int{"set": 29, "k": 2, "pool": 4, "poolfrom": 28, "iter": 0}})
 			// a route registered on an existing branching node without a route, then writes below it (pool window 24..27)
 			js = append(js, &Job{Harness: "C04Txn", Params: map[string]int{"set": 17, "k": 2, "pool": 4, "poolfrom": 24, "iter": 0}})
 			if tier == "thorough" {
@@ -521,11 +545,11 @@ func init() {
 		},
 		Bounds: func(tier string) string {
 			if tier == "thorough" {
-				return "12 start sets x transactions of k<=3 writes (7 kinds, methods {GET,FOO}, pattern pool 12/8/3 for k=1/2/3; on the siblings-3 set also k<=3 over a pool holding a route on an existing branching node and routes below it) x 5 endings (Commit, Abort, Updates returning nil, Updates returning an error after j ops, Updates panicking after j ops; j symbolic in 0..k); txn view, router view and a fresh read-only txn compared with the model after every step; settled-txn, double Commit/Abort, new-writer and read-only-writes obligations on every path"
+				return "12 start sets x transactions of k<=3 writes (7 kinds, methods {GET,FOO}, pattern pool 12/8/3 for k=1/2/3; on the siblings-3 set also k<=3 over a pool holding a route on an existing branching node and routes below it) x 5 endings (Commit, Abort, Updates returning nil, Updates returning an error after j ops, Updates panicking after j ops; j symbolic in 0..k); on two start sets a snapshot of the write transaction is written to (must refuse) and settled by Commit / Abort (must neither publish nor release the writer lock); txn view, router view and a fresh read-only txn compared with the model after every step; settled-txn, double Commit/Abort, new-writer and read-only-writes obligations on every path"
 			}
-			return "4 start sets x transactions of k<=2 writes (7 kinds, methods {GET,FOO}, pattern pool 12 for k=1, 4..8 for k=2 on three start sets, with and without an iterator on the open transaction between steps; on the siblings-3 set also k=2 over a pool holding a route on an existing branching node and routes below it) x 5 endings (Commit, Abort, Updates returning nil, Updates returning an error after j ops, Updates panicking after j ops; j symbolic in 0..k); txn view, router view and a fresh read-only txn compared with the model after every step; settled-txn, double Commit/Abort, new-writer and read-only-writes obligations on every path"
+			return "4 start sets x transactions of k<=2 writes (7 kinds, methods {GET,FOO}, pattern pool 12 for k=1, 4..8 for k=2 on three start sets, with and without an iterator on the open transaction between steps; on the siblings-3 set also k=2 over a pool holding a route on an existing branching node and routes below it) x 5 endings (Commit, Abort, Updates returning nil, Updates returning an error after j ops, Updates panicking after j ops; j symbolic in 0..k); on two start sets a snapshot of the write transaction is written to (must refuse) and settled by Commit / Abort (must neither publish nor release the writer lock); txn view, router view and a fresh read-only txn compared with the model after every step; settled-txn, double Commit/Abort, new-writer and read-only-writes obligations on every path"
 		},
-		RequiredCovers: []string{"explicit commit", "explicit abort", "managed commit", "managed: error returned", "managed: panic", "new write transaction opened"},
+		RequiredCovers: []string{"explicit commit", "explicit abort", "managed commit", "managed: error returned", "managed: panic", "new write transaction opened", "snapshot of a write transaction settled"},
 		Assumptions: []string{
 			"sync.Mutex modelled (Lock on a held mutex in a single-threaded harness is reported as a deadlock violation)",
 			"'no reader observes part of a transaction' is checked sequentially between every two steps; concurrent readers are C05's obligation",
@@ -558,7 +582,7 @@ func init() {
 			if tier == "thorough" {
 				k = 3
 			}
-			return fmt.Sprintf("every sequence of k<=%d calls among WriteHeader(code in 100..999, solver-chosen), Write/WriteString of 0..3 bytes, ReadFrom of a 0..3-byte source ending in EOF or an error, FlushError; the underlying writer accepts a solver-chosen number of the offered bytes and fails or not (solver-chosen); underlying writer variants: plain, +ReaderFrom/FlushError/Pusher/Hijacker/deadlines/full-duplex, classic Flusher; A/B of plain vs rich on the same choices; each optional capability once with and without support; Blob/Stream/String with solver-chosen status and 0..3 bytes; Redirect with every code 0..999", k)
+			return fmt.Sprintf("every sequence of k<=%d calls among WriteHeader(code in 100..999, solver-chosen), Write/WriteString of 0..3 bytes, ReadFrom of a 0..3-byte source ending in EOF or an error, FlushError; the underlying writer accepts a solver-chosen number of the offered bytes and fails or not (solver-chosen); underlying writer variants: plain, +ReaderFrom/FlushError/Pusher/Hijacker/deadlines/full-duplex, classic Flusher; A/B of plain vs rich on the same choices; each optional capability once with and without support; Blob/Stream with solver-chosen status, 0..3 bytes and optionally another Content-Type already set on the response; String with three formats (plain, %% without values, verbs with values); Redirect with every code 0..999; every sequence runs on a recorder recycled from three earlier requests that wrote, flushed and hijacked", k)
 		},
 		RequiredCovers: []string{"informational header", "short write", "ReadFrom", "ReadFrom of an empty source", "A/B compared", "redirect accepted", "redirect refused"},
 		Assumptions: []string{
@@ -579,14 +603,16 @@ func init() {
 					js = append(js, &Job{Harness: "C20Log", Params: map[string]int{"resolver": r, "kind": k}})
 				}
 			}
+			// two requests in flight through the same Logger (race monitor + per-record consistency)
+			js = append(js, &Job{Harness: "C20Conc", Params: map[string]int{"preempt": 2}})
 			// a request whose RawPath differs from its path (404 handler)
 			js = append(js, &Job{Harness: "C20Log", Params: map[string]int{"resolver": 0, "kind": 1, "raw": 1}})
 			return js
 		},
 		Bounds: func(tier string) string {
-			return "4 resolver configurations (none, succeeding, failing, per-route override over a failing router-wide one) x 5 handler kinds (route, 404, 405, trailing-slash redirect, OPTIONS) x 10 handler behaviours (FlushError then WriteHeader(code) on a writer offering FlushError, WriteHeader(code) for every code 100..999 by solver, implicit 200 via Write, Redirect with Location, 301 without Location, nothing written, panic, any code with a Location header, Write then a superfluous WriteHeader(code), 201 then a superfluous WriteHeader(code)); a 404 request whose RawPath differs from its path; A/B against the same router without the middleware"
+			return "4 resolver configurations (none, succeeding, failing, per-route override over a failing router-wide one) x 5 handler kinds (route, 404, 405, trailing-slash redirect, OPTIONS) x 10 handler behaviours (FlushError then WriteHeader(code) on a writer offering FlushError, WriteHeader(code) for every code 100..999 by solver, implicit 200 via Write, Redirect with Location, 301 without Location, nothing written, panic, any code with a Location header, Write then a superfluous WriteHeader(code), 201 then a superfluous WriteHeader(code)); a 404 request whose RawPath differs from its path; two concurrent requests (a served one and a 404) through the same Logger under the schedule explorer and the happens-before race monitor; A/B against the same router without the middleware"
 		},
-		RequiredCovers: []string{"2xx", "3xx", "4xx", "5xx", "location logged", "panic through logger", "request with RawPath"},
+		RequiredCovers: []string{"2xx", "3xx", "4xx", "5xx", "location logged", "panic through logger", "request with RawPath", "concurrent requests through the Logger"},
 		Assumptions: []string{
 			"log/slog front end modelled: slog.String/Int/Duration/Any/Group and Logger.LogAttrs/Error hand level, message and attributes to the capturing handler (natively the same handler receives the real slog.Record); slog's own delivery is outside the claim",
 			"time.Now/time.Since are stubs (fixed latency); the latency attribute is not asserted",
@@ -620,9 +646,9 @@ func init() {
 			if tier == "thorough" {
 				k = "3"
 			}
-			return "12 panic values (error, wrapped and bare http.ErrAbortHandler, string, custom struct, *net.OpError over *os.SyscallError with 'broken pipe' / 'Connection reset by peer' / other, the same syscall error nested in a second OpError or wrapped with %w, a run-time error, OpError without SyscallError) x 5 response progress states (nothing, header, partial body, flushed on a writer offering FlushError, 101 Switching Protocols) x 4 handler kinds (route, 404, 405, OPTIONS); redaction: each of the six credential header names in every capitalisation (2^letters spellings per name, decided by the solver on a byte-wise case constraint); managed transactions: Updates run by a handler under Recovery, Updates called directly, View run by a handler, Router.Handle / Router.Update panicking while the route's middleware chain is built (inside a handler), with every sequence of 1.." + k + " writes out of 6 (Handle, Update, Delete, Truncate(GET), Truncate(), Handle under another method) and the panic after every step"
+			return "12 panic values (error, wrapped and bare http.ErrAbortHandler, string, custom struct, *net.OpError over *os.SyscallError with 'broken pipe' / 'Connection reset by peer' / other, the same syscall error nested in a second OpError or wrapped with %w, a run-time error, OpError without SyscallError) x 6 response progress states (nothing, header, partial body, flushed on a writer offering FlushError, 101 Switching Protocols, body streamed with ReadFrom - with and without an underlying io.ReaderFrom - from a source that panics after its first chunk) x 4 handler kinds (route, 404, 405, OPTIONS); redaction: each of the six credential header names in every capitalisation (2^letters spellings per name, decided by the solver on a byte-wise case constraint); managed transactions: Updates run by a handler under Recovery, Updates called directly, View run by a handler, Router.Handle / Router.Update panicking while the route's middleware chain is built (inside a handler), with every sequence of 1.." + k + " writes out of 6 (Handle, Update, Delete, Truncate(GET), Truncate(), Handle under another method) and the panic after every step"
 		},
-		RequiredCovers: []string{"ErrAbortHandler re-raised", "500 written", "broken connection: nothing written", "panic after a flush", "spelled as in the list", "other capitalisation", "panic inside Updates in a handler", "panic inside a direct Updates", "panic inside View in a handler", "panic inside a single-operation write in a handler", "panic after a protocol switch"},
+		RequiredCovers: []string{"ErrAbortHandler re-raised", "500 written", "broken connection: nothing written", "panic after a flush", "spelled as in the list", "other capitalisation", "panic inside Updates in a handler", "panic inside a direct Updates", "panic inside View in a handler", "panic inside a single-operation write in a handler", "panic after a protocol switch", "panic in the source of a ReadFrom (copy loop)", "panic in the source of a ReadFrom (underlying io.ReaderFrom)"},
 		Assumptions: []string{
 			"httputil.DumpRequest modelled: request line, Host line, one 'Key: value' line per stored header value with keys as stored, CRLF separated (natively the real DumpRequest is used on replay)",
 			"log/slog front end modelled as in C20; runtime.Callers returns no frames (stack text not asserted)",
@@ -651,6 +677,10 @@ func init() {
 			for g := 0; g <= 2; g++ {
 				js = append(js, &Job{Harness: "C13Chain", Params: map[string]int{"g": g, "r": 1, "defaults": 0, "routeredir": 1}})
 			}
+			// the route under test has a catch-all in the middle of its pattern
+			for g := 0; g <= 1; g++ {
+				js = append(js, &Job{Harness: "C13Chain", Params: map[string]int{"g": g, "r": 2, "defaults": 0, "infix": 1}})
+			}
 			if tier == "thorough" {
 				add(4, 0, 1)
 				add(3, 2, 0)
@@ -667,7 +697,7 @@ func init() {
 			}
 			return fmt.Sprintf("up to %d global middleware, each registered through WithMiddleware or WithMiddlewareFor with a solver-chosen 8-bit scope mask (all 256 values), optionally together with DefaultOptions (registered after up to 3, thorough 4, of them); trailing-slash redirect enabled router-wide or only on the route that needs it; up to 2 route middleware; all five handler kinds per configuration; Route.Handle / Route.HandleMiddleware; Update; a second route with other middleware; concurrent NewRoute (see threads)", g)
 		},
-		RequiredCovers: []string{"chains compared", "three or more global middleware", "concurrent NewRoute", "redirect enabled per route only"},
+		RequiredCovers: []string{"chains compared", "three or more global middleware", "concurrent NewRoute", "redirect enabled per route only", "route with an infix catch-all"},
 		Assumptions: []string{
 			"the console slog handler of DefaultOptions is a stub (its output is not modelled); Recovery and Logger themselves are executed",
 		},
@@ -704,7 +734,7 @@ func init() {
 			}
 			return "every sequence of " + b + " among ignore-trailing-slash(bool), redirect-trailing-slash(bool), client-IP resolver (A, B, nil), middleware (nil or not), annotation (13-key catalogue: ints, strings, structs, pointers, named types, slices, maps, funcs, comparable structs/arrays holding unhashable dynamic values, nil), booleans solver-chosen; creation through NewRoute, Handle and Update; nil handlers through every creation path; Context.ClientIP in the five handler kinds x router resolver present/absent x route resolver inherited/own/none. Accessor consistency for symbolic patterns is decided by C10. Two concurrent NewRoute calls with route middleware under the race monitor (0..4 global middleware, three registration APIs)."
 		},
-		RequiredCovers: []string{"route options compared", "invalid route option rejected", "invalid global option rejected", "nil annotation key did not panic", "ClientIP in a route handler", "ClientIP in a non-route handler", "ClientIP in the redirect handler"},
+		RequiredCovers: []string{"two route middleware in order", "route options compared", "invalid route option rejected", "invalid global option rejected", "nil annotation key did not panic", "ClientIP in a route handler", "ClientIP in a non-route handler", "ClientIP in the redirect handler"},
 		Assumptions:    []string{"maps with `any` keys follow the runtime's hashing rules in the executor (hash of unhashable type panics)", "acceptance of a nil annotation key is not specified (only that it must not panic)"},
 	}
 }
@@ -746,9 +776,9 @@ func init() {
 			if tier == "thorough" {
 				k = 4
 			}
-			return fmt.Sprintf("every sequence of k<=%d requests over 11 shapes (direct, ignored trailing slash, 404, 405, OPTIONS, redirect, manual Lookup+Clone+Close, CloneWith in a handler, Clone in a handler, tree replaced by Handle before the request, connection hijacked by the handler) with distinct tokens in path parameter, query, request header, response header, status and body size; every sync.Pool.Get explores each pooled context; every getter read in each handler; clones re-read at the end", k)
+			return fmt.Sprintf("every sequence of k<=%d requests over 13 shapes (a direct match through an infix catch-all route, an Iter.Reverse loop left at its first match followed by a direct request, direct, ignored trailing slash, 404, 405, OPTIONS, redirect, manual Lookup+Clone+Close, CloneWith in a handler, Clone in a handler, tree replaced by Handle before the request, connection hijacked by the handler) with distinct tokens in path parameter, query, request header, response header, status and body size; every sync.Pool.Get explores each pooled context; every getter read in each handler; clones re-read at the end", k)
 		},
-		RequiredCovers: []string{"Clone of a Lookup context", "CloneWith in a handler", "Clone taken in a handler", "concurrent requests", "redirect handler context observed", "connection hijacked in a handler"},
+		RequiredCovers: []string{"Clone of a Lookup context", "CloneWith in a handler", "Clone taken in a handler", "concurrent requests", "redirect handler context observed", "connection hijacked in a handler", "Iter.Reverse loop left early", "Clone of a context without parameters"},
 		Assumptions:    []string{"sync.Pool modelled as a bag from which Get may return any pooled object (all choices explored) or call New when empty", "concurrent mixes of requests are not decided by this check (see level_note)"},
 	}
 }
@@ -822,8 +852,8 @@ func init() {
 			sets := []int{0, 7, 10, 11}
 			maxLp, maxLn := 4, 3
 			if tier == "thorough" {
-				sets = []int{0, 3, 7, 9, 10, 11, 15, 18}
-				maxLp, maxLn = 5, 3
+				sets = []int{0, 3, 7, 10, 11, 15}
+				maxLp, maxLn = 4, 3
 			}
 			for _, s := range sets {
 				for stage := 0; stage < 6; stage++ {
@@ -833,6 +863,10 @@ func init() {
 					js = append(js, &Job{Harness: "C06Parked", Params: map[string]int{"set": s, "stage": stage, "lh": 2, "lp": 3, "ln": maxLn}})
 				}
 			}
+			// the same reads on a tree published by a transaction that truncated one method only
+			for stage := 0; stage < 4; stage++ {
+				js = append(js, &Job{Harness: "C06Parked", Params: map[string]int{"set": 0, "trunc": 1, "stage": stage, "lh": 0, "lp": 3, "ln": 2}})
+			}
 			// a 30-level chain (deep-tree code paths of the iterators)
 			for stage := 0; stage < 6; stage++ {
 				js = append(js, &Job{Harness: "C06Parked", Params: map[string]int{"set": 0, "deep": 1, "stage": stage, "lh": 0, "lp": 3, "ln": 2}})
@@ -841,11 +875,11 @@ func init() {
 		},
 		Bounds: func(tier string) string {
 			if tier == "thorough" {
-				return "8 corpus routers (routes alternately GET/POST, redirect-trailing-slash on, 405 and auto-OPTIONS on) x a write transaction parked at 5 stages (just opened; after Handle+Delete+Truncate; inside Updates; after Txn.Snapshot and Txn.Iter; after a commit that replaced the tree on which a Lookup context, an Iter and a read-only Txn had been obtained - these are then used and closed) x every read entry point (ServeHTTP in 4 methods, Lookup, Clone, Reverse, Has, Route, Len, Stats, Iter.All/Methods/Prefix/Routes/Reverse, View with all Txn reads, read-only Txn with Snapshot/Commit/Abort) on every path of 2..5 bytes, host of 0 or 2 bytes and pattern of 2..3 bytes; conversely (stage 6) a write (Handle+Delete) completes while a reader is parked inside Iter.Methods/All/Routes/Prefix/Reverse, inside View, with an open read-only Txn + Snapshot, with an open Lookup context and inside a request handler; the same 6 stages on a 30-level chain router (deep-tree iterator paths), path of 3 bytes; plus: a second writer does block"
+				return "6 corpus routers (routes alternately GET/POST plus one PATCH route, redirect-trailing-slash on, 405 and auto-OPTIONS on) x a write transaction parked at 5 stages (just opened; after Handle+Delete+Truncate; inside Updates; after Txn.Snapshot and Txn.Iter; after a commit that replaced the tree on which a Lookup context, an Iter and a read-only Txn had been obtained - these are then used and closed) x every read entry point (ServeHTTP in 4 methods, Lookup, Clone, Reverse, Has, Route, Len, Stats, Iter.All/Methods/Prefix/Routes/Reverse, View with all Txn reads, read-only Txn with Snapshot/Commit/Abort) on every path of 2..4 bytes, host of 0 or 2 bytes and pattern of 2..3 bytes; conversely (stage 6) a write (Handle+Delete) completes while a reader is parked inside Iter.Methods/All/Routes/Prefix/Reverse, inside View, with an open read-only Txn + Snapshot, with an open Lookup context and inside a request handler (also deleting and re-registering the very route being served); stages 1-4 also on a tree published by a partial Truncate; the same 6 stages on a 30-level chain router (deep-tree iterator paths), path of 3 bytes; plus: a second writer does block"
 			}
-			return "4 corpus routers (routes alternately GET/POST, redirect-trailing-slash on, 405 and auto-OPTIONS on) x a write transaction parked at 5 stages (just opened; after Handle+Delete+Truncate; inside Updates; after Txn.Snapshot and Txn.Iter; after a commit that replaced the tree on which a Lookup context, an Iter and a read-only Txn had been obtained - these are then used and closed) x every read entry point (ServeHTTP in 4 methods, Lookup, Clone, Reverse, Has, Route, Len, Stats, Iter.All/Methods/Prefix/Routes/Reverse, View with all Txn reads, read-only Txn with Snapshot/Commit/Abort) on every path of 2..4 bytes, host of 0 or 2 bytes and pattern of 2..3 bytes; conversely (stage 6) a write (Handle+Delete) completes while a reader is parked inside Iter.Methods/All/Routes/Prefix/Reverse, inside View, with an open read-only Txn + Snapshot, with an open Lookup context and inside a request handler; the same 6 stages on a 30-level chain router (deep-tree iterator paths), path of 3 bytes; plus: a second writer does block"
+			return "4 corpus routers (routes alternately GET/POST plus one PATCH route, redirect-trailing-slash on, 405 and auto-OPTIONS on) x a write transaction parked at 5 stages (just opened; after Handle+Delete+Truncate; inside Updates; after Txn.Snapshot and Txn.Iter; after a commit that replaced the tree on which a Lookup context, an Iter and a read-only Txn had been obtained - these are then used and closed) x every read entry point (ServeHTTP in 4 methods, Lookup, Clone, Reverse, Has, Route, Len, Stats, Iter.All/Methods/Prefix/Routes/Reverse, View with all Txn reads, read-only Txn with Snapshot/Commit/Abort) on every path of 2..4 bytes, host of 0 or 2 bytes and pattern of 2..3 bytes; conversely (stage 6) a write (Handle+Delete) completes while a reader is parked inside Iter.Methods/All/Routes/Prefix/Reverse, inside View, with an open read-only Txn + Snapshot, with an open Lookup context and inside a request handler (also deleting and re-registering the very route being served); stages 1-4 also on a tree published by a partial Truncate; the same 6 stages on a 30-level chain router (deep-tree iterator paths), path of 3 bytes; plus: a second writer does block"
 		},
-		RequiredCovers: []string{"all read entry points completed while a writer was parked", "stale context closed while a writer was parked", "writes completed while readers were parked"},
+		RequiredCovers: []string{"all read entry points completed while a writer was parked", "stale context closed while a writer was parked", "writes completed while readers were parked", "served route deleted inside its handler", "reads on a tree published by a partial truncate"},
 		Assumptions: []string{
 			"sync.Mutex modelled: Lock on a mutex held by the parked writer is reported as blocked-forever (deadlock violation); blocking inside the Go runtime, sync.Pool or atomics is outside the model",
 			"the parked writer and the reader are the same executor thread: no scheduling is involved, the claim is that no read path acquires the writer lock (or any lock the writer holds) for any input in the bounds",
@@ -865,7 +899,7 @@ func init() {
 				pre = 3
 			}
 			for _, s := range sets {
-				for sc := 0; sc < 10; sc++ {
+				for sc := 0; sc < 11; sc++ {
 					js = append(js, &Job{Harness: "C05Conc", Params: map[string]int{"set": s, "scenario": sc, "preempt": pre}})
 				}
 			}
@@ -878,9 +912,9 @@ func init() {
 			if tier == "thorough" {
 				sets, pre = 11, 3
 			}
-			return fmt.Sprintf("%d start routers x 10 thread programs (Router.Delete of one route || Handle of another; a route moved from POST to GET in one Updates || a GET request with 405 handling on; Truncate(method) + re-registration in one Updates || reader; Handle||Handle on different routes from a 7-pattern pool; Handle||Handle on the same route; Update||Delete; two-route Updates || reader doing Has,Has,Iter.All,Has; Handle || ServeHTTP || ServeHTTP on routes sharing nodes; aborted write txn || reader; Update of a parent + Handle below it + marker in one Updates || reader) plus ServeHTTP||ServeHTTP with per-request tokens and NewRoute||NewRoute with 0..4 global middleware registered through WithMiddleware, WithMiddlewareFor or followed by DefaultOptions: every interleaving at synchronisation granularity (mutex Lock, atomic Load/Store, sync.Pool Get/Put, thread start/exit) with at most %d pre-emptive context switches; <= 3 threads besides the joiner; happens-before race monitor on every heap cell", sets, pre)
+			return fmt.Sprintf("%d start routers x 11 thread programs (a write transaction that settles a snapshot of itself half way || another writer; Router.Delete of one route || Handle of another; a route moved from POST to GET in one Updates || a GET request with 405 handling on; Truncate(method) + re-registration in one Updates || reader; Handle||Handle on different routes from a 7-pattern pool; Handle||Handle on the same route; Update||Delete; two-route Updates || reader doing Has,Has,Iter.All,Has; Handle || ServeHTTP || ServeHTTP on routes sharing nodes; aborted write txn || reader; Update of a parent + Handle below it + marker in one Updates || reader) plus ServeHTTP||ServeHTTP with per-request tokens and NewRoute||NewRoute with 0..4 global middleware registered through WithMiddleware, WithMiddlewareFor or followed by DefaultOptions: every interleaving at synchronisation granularity (mutex Lock, atomic Load/Store, sync.Pool Get/Put, thread start/exit) with at most %d pre-emptive context switches; <= 3 threads besides the joiner; happens-before race monitor on every heap cell", sets, pre)
 		},
-		RequiredCovers: []string{"W||W different routes", "W||W same route", "Update||Delete", "txn||reader", "W||R||R", "abort||reader", "update+write-below||reader", "truncate+refill||reader", "Delete||Handle", "method move||request", "concurrent requests", "concurrent NewRoute"},
+		RequiredCovers: []string{"W||W different routes", "W||W same route", "Update||Delete", "txn||reader", "W||R||R", "abort||reader", "update+write-below||reader", "truncate+refill||reader", "Delete||Handle", "method move||request", "txn with settled snapshot||writer", "concurrent requests", "concurrent NewRoute"},
 		Assumptions: []string{
 			"threads switch only at synchronisation operations; schedules finer than that are covered by the DRF argument only because the happens-before race monitor is clean on every explored schedule",
 			"pre-emption bound as stated; more threads, more operations per thread and unbounded pre-emption are outside the claim",
